@@ -1,7 +1,7 @@
 """Configuration of ./check C01 (see cfg/README)."""
 
 PROP = {'drive': ['Font'],
- 'modules': ['SfntV.Props.C01', 'SfntV.Props.C01Codecs', 'SfntV.Props.C01File', 'SfntV.Props.C01FileEx', 'SfntV.Props.C01FileCff', 'SfntV.Props.C01FileCffEx'],
+ 'modules': ['SfntV.Props.C01', 'SfntV.Props.C01Codecs', 'SfntV.Props.C01File', 'SfntV.Props.C01FileEx', 'SfntV.Props.C01FileCff', 'SfntV.Props.C01FileCffEx', 'SfntV.Props.C01FileLayout', 'SfntV.Props.C01FileLayoutEx'],
  'required_theorems': ['C01_write_accepted',
                        'C01_read_write',
                        'C01_env_irrelevant',
@@ -18,6 +18,12 @@ PROP = {'drive': ['Font'],
                        'C01_file_roundtrip_cff',
                        'C01_file_example_cff_in_domain',
                        'C01_file_example_cff',
+                       'C01_file_roundtrip_layout',
+                       'C01_file_roundtrip_cff_layout',
+                       'C01_file_example_layout_in_domain',
+                       'C01_file_example_layout',
+                       'C01_file_example_cff_layout_in_domain',
+                       'C01_file_example_cff_layout',
                        'C01_head_codec',
                        'C01_os2_codec',
                        'C01_post_codec',
@@ -35,11 +41,18 @@ PROP = {'drive': ['Font'],
              '(C09), glyf/loca (C11) exactly as write.go / read.go do, and C01_file_roundtrip proves readFile (writeFile F) '
              '= nfFile F for TrueType fonts in InDomainFile = the explicit conjunction of the guards of the composed '
              'theorems (notably: strings Mac-Roman representable because Write also emits a Macintosh name table; '
-             'REGULAR excludes BOLD/ITALIC; heights >= 0; int16 metrics; <= 4 distinct side tables; file < 4 GiB). NOT '
-             'composed, only stated as guards with abstract decoders: GDEF/GSUB/GPOS (C08: its theorems are per list / '
-             'lookup, not decode(encode x) = x on one Info type) and the CFF table (C13: its FontIn/FontOut take '
+             'REGULAR excludes BOLD/ITALIC; heights >= 0; int16 metrics; <= 4 distinct side tables; file < 4 GiB). GDEF/GSUB/GPOS: '
+             'C01_file_roundtrip_layout / C01_file_roundtrip_cff_layout (Proofs/FontFileLayout.lean) instantiate the '
+             'layout decoders with the C08 readers (InfoA.gdefTok, InfoA.decTok gsubCodec 7 / gposCodec 9) - no abstract '
+             'decoder is left for these tables; domain: each present table is Info.encode / GdefV.encode of a value in '
+             'InfoOk / GdefOk (example: the 150-byte GSUB of C08 exG inside both example fonts, '
+             'C01_file_example_layout, C01_file_example_cff_layout). Limits inherited from C08: Info.read reads the '
+             'lookup list through LL.specRead (the specification reader of C08, tied to the Go reader by C08 streams, '
+             'not the checked-index model of C02), InfoOk carries the PartGood hypotheses of the per-lookup codecs, the '
+             'GDEF theorem is relational (GdefOk), and the decoded value enters the font model as a token of the bytes. '
+             'The CFF table (C13: its FontIn/FontOut take '
              'charstrings opaque and floats as 9-digit decimals, while widths/extents of the font model need the '
-             'charstring interpreter C05 and exact float->decimal conversion); C01_file_roundtrip_cff is the '
+             'charstring interpreter C05 and exact float->decimal conversion) stays a guard with an abstract decoder; C01_file_roundtrip_cff is the '
              'OpenType/CFF flavour with every table around the outlines composed. The ligature GSUB that Read '
              'synthesises is a token (C15 standardLigatures printed), not a gtab payload. Tied by V font.file: '
              'byte-exact equality of the model file with the real Font.Write on every generated font of all three '
